@@ -33,6 +33,7 @@ import (
 	"fmt"
 	"math"
 	"math/rand/v2"
+	"os"
 	"reflect"
 	"sort"
 	"strconv"
@@ -701,6 +702,7 @@ type OmPlan struct {
 	Ghosts     []OmGhost  `json:"ghosts,omitempty"`
 	Faults     []OmFault  `json:"faults,omitempty"`
 	NoFinal    bool       `json:"no_final,omitempty"`
+	Alias      bool       `json:"alias,omitempty"` // some callers edit the byte slices of a fetched entity in place (call kind "scribble")
 	// Queue is the command queue of the clients: "" (ring) or "flowbuffer". Plans with connection faults use the flow
 	// buffer: when a connection with several queued callers dies, the writer loop and the clean-up loop of the ring
 	// contend for slot locks, and whether one of them has to wait (a scheduler-granted lock = an event) is decided by
@@ -772,7 +774,7 @@ func genOm(seed uint64, tier, variant string) any {
 				c.K, c.Base = "save", pick(r, "fetched", "fetched", "fetched", "last", "last", "new")
 			}
 			if has("alias") && r.IntN(5) == 0 {
-				c.K = "scribble"
+				c.K, p.Alias = "scribble", true
 			}
 			calls = append(calls, c)
 		}
@@ -902,7 +904,7 @@ func execOm(t *testing.T, plan any, out *Outcome) {
 	p := plan.(*OmPlan)
 	e := newSimEnv(out.Seed, p.Sim, out)
 	s := e.sim
-	rueidis.VerifCleanupSpinBudget(100000)
+	rueidis.VerifCleanupSpinBudget(omSpinBudget())
 	rueidis.VerifQueueType(p.Queue)
 	x := &omRun{p: p, e: e}
 	out.Config = fmt.Sprintf("repo=%s,cl=%d,cache=%v,resp2=%v,ents=%d,flt=%d,clr=%v,q=%s", p.Repo, p.Clients, p.Cache, p.RESP2, p.Ents, len(p.Faults), p.ClearPtr, p.Queue)
@@ -1215,7 +1217,7 @@ func (x *omRun) ghost(s *sched.Sim, gi int, g OmGhost) {
 // ---------------------------------------------------------------------------------------------------- oracle
 
 // omExecTag extracts the tag a script execution carries in its arguments.
-func omExecTag(repo string, argv []string) (key, tag string, ok bool) {
+func omExecTag(repo string, argv []string, known func(string) bool) (key, tag string, ok bool) {
 	// EVAL script 1 key vername ver ... | EVALSHA sha 1 key vername ver ...
 	if len(argv) < 6 || argv[2] != "1" {
 		return "", "", false
@@ -1223,8 +1225,9 @@ func omExecTag(repo string, argv []string) (key, tag string, ok bool) {
 	key = argv[3]
 	rest := argv[6:]
 	if repo == "hash" {
-		for i := 0; i+1 < len(rest); i += 2 {
-			if rest[i] == "tag" {
+		// the field named "tag", wherever the argument layout puts the pairs
+		for i := 0; i+1 < len(rest); i++ {
+			if rest[i] == "tag" && known(rest[i+1]) {
 				return key, rest[i+1], true
 			}
 		}
@@ -1336,7 +1339,7 @@ func (x *omRun) check() {
 			}
 			continue
 		}
-		key, tag, ok := omExecTag(p.Repo, ex.Argv)
+		key, tag, ok := omExecTag(p.Repo, ex.Argv, func(t string) bool { return saves[t] != nil })
 		i, isEnt := keyIdx[key]
 		sr := saves[tag]
 		if !ok || !isEnt || sr == nil || sr.ent != i {
@@ -1401,6 +1404,14 @@ func (x *omRun) check() {
 	onlyNilPtr := func(ds []omDiffEntry) bool {
 		for _, d := range ds {
 			if !d.PtrNilWant {
+				return false
+			}
+		}
+		return true
+	}
+	onlyBytes := func(ds []omDiffEntry) bool {
+		for _, d := range ds {
+			if d.Path != ".Bytes" && d.Path != ".Raw" {
 				return false
 			}
 		}
@@ -1595,6 +1606,9 @@ func (x *omRun) check() {
 			rule := "fetch-differs-from-saved"
 			if onlyNilPtr(ds) {
 				rule = ruleNilPtr
+			} else if p.Alias && onlyBytes(ds) {
+				// some caller edited the byte slices of an entity it had fetched, in place, and this read shows the edit
+				rule = "fetched-entity-shares-memory-with-cache"
 			}
 			if !reported[rule] {
 				reported[rule] = true
@@ -1650,4 +1664,12 @@ func (x *omRun) check() {
 	if s.Stats["s2c.partial"] > 0 {
 		out.probe("reply-cut")
 	}
+}
+
+// omSpinBudget: see rueidis.VerifCleanupSpinBudget. VERIF_OM_SPIN overrides it (development).
+func omSpinBudget() int {
+	if v, err := strconv.Atoi(os.Getenv("VERIF_OM_SPIN")); err == nil {
+		return v
+	}
+	return 100000
 }
